@@ -112,6 +112,12 @@ class Prop(core.Prop):
             for w in windows(n['TSTEP'], 'quick'):
                 if w[0][0] != 'I':
                     yield {'ioapi': rec, 'win': [['TSTEP', list(w[0]), w[1], w[2]]], 'notflag': True}
+        if len(group['dims']) <= 2:
+            # the same windows (canonical spellings) taken through the documented alias f.slice(...)
+            for combo in itertools.product(*[windows(n[d], 'quick') for d in group['dims']]):
+                if all(w[0][0] != 'I' for w in combo):
+                    yield {'ioapi': rec, 'alias': True, 'win': [[d, list(w[0]), w[1], w[2]]
+                                                                for d, w in zip(group['dims'], combo)]}
         for combo in itertools.product(*axes):
             yield {'ioapi': rec, 'win': [[d, list(w[0]), w[1], w[2]]
                                          for d, w in zip(group['dims'], combo)]}
@@ -154,12 +160,13 @@ class Prop(core.Prop):
             kw[d] = rops.sel_to_py(tuple(s))
             cls.append('%s:%s' % (d, {'i': 'int', 'I': 'npint'}.get(s[0], 'slice')))
             win[d] = (a, b)
-        sig = ('sliceDimensions', '+'.join(sorted(c.split(':')[0] for c in cls)))
+        sig = ('slice' if case.get('alias') else 'sliceDimensions', '+'.join(sorted(c.split(':')[0] for c in cls)))
         scope = {'dims': '+'.join(sorted(win)), 'selkinds': '+'.join(sorted(cls)),
                  'tstep': rec['tstep'], 'added': bool(case.get('added')), 'uneven': bool(rec.get('uneven')),
-                 'stride': case.get('stride', 1), 'notflag': bool(case.get('notflag'))}
+                 'stride': case.get('stride', 1), 'notflag': bool(case.get('notflag')),
+                 'alias': bool(case.get('alias'))}
         try:
-            g = f.sliceDimensions(**kw)
+            g = f.slice(**kw) if case.get('alias') else f.sliceDimensions(**kw)
         except Exception as e:
             vs.append(viol('in-domain-raises', sig, '%s: %r' % (type(e).__name__, e),
                            exc=type(e).__name__, **scope))
@@ -208,5 +215,5 @@ class Prop(core.Prop):
                                     'COL': rec['nc']}[d] for d, (a_, b_) in win.items())
         st = [h64(rec), h64(rec, sorted(win.items()))]
         return result('viol' if vs else 'ok', vs, st, 1,
-                      h64(rec, case['win'], case.get('added'), case.get('stride'), case.get('notflag')) if nontriv else None,
+                      h64(rec, case['win'], case.get('added'), case.get('stride'), case.get('notflag'), case.get('alias')) if nontriv else None,
                       h64(float(g.XORIG), float(g.YORIG), gvg.tobytes(), repr(got)) if not vs else None)
